@@ -15,34 +15,66 @@ COMMON_ASSUMPTIONS = [
     "process-kill crash model: completed file operations survive, unflushed mmap log tail is lost",
 ]
 
-ALL_INV = ["Inv_C01", "Inv_C02", "Inv_C03", "Inv_C04", "Inv_C05", "Inv_C06", "Inv_C15", "Inv_C19"]
+ALL_INV = ["Inv_C01", "Inv_C02", "Inv_C03", "Inv_C04", "Inv_C05", "Inv_C06", "Inv_C08", "Inv_C11", "Inv_C15", "Inv_C17a", "Inv_C19"]
+REPL_INV = ["Inv_C02", "Inv_C03", "Inv_C04", "Inv_C06", "Inv_C19", "Inv_C15"]
+CONF_INV = ["Inv_C08", "Inv_C11", "Inv_C06", "Inv_C02", "Inv_C01", "Inv_C19", "Inv_C15"]
 
-ELECT_Q = {"name": "election-2e", "consts": {"MaxTerm": 3, "MaxLog": 3, "MaxInflight": 0, "MaxElections": 2, "MaxCrash": 0},
-           "invariants": ["Inv_C01", "Inv_C05"], "timeout": 600}
-REPL_Q = {"name": "replication-1e", "consts": {"MaxTerm": 3, "MaxLog": 4, "MaxInflight": 1, "MaxElections": 1, "MaxCmds": 1, "MaxCrash": 1},
-          "invariants": ["Inv_C02", "Inv_C03", "Inv_C04", "Inv_C06", "Inv_C19", "Inv_C15"], "timeout": 900}
+# ---- bounded configurations of Raft.tla (measured: see evidence model_runs; ~50k generated states/s on 16 cores)
+ELECT_Q = {"name": "election-3n-2e", "consts": {"MaxTerm": 3, "MaxLog": 3, "MaxInflight": 0, "MaxElections": 2, "MaxCrash": 0},
+           "invariants": ["Inv_C01", "Inv_C05", "Inv_C17a", "Inv_C11"], "timeout": 900}
+ELECT_2N = {"name": "election-2n-crash", "consts": {"Node": "{n1, n2}", "InitVoters": "{n1, n2}", "MaxTerm": 4, "MaxLog": 4, "MaxInflight": 0, "MaxElections": 3, "MaxCrash": 2},
+            "invariants": ["Inv_C01", "Inv_C05", "Inv_C17a"], "timeout": 900}
+REPL_Q3 = {"name": "replication-3n", "consts": {"MaxTerm": 2, "MaxLog": 2, "MaxInflight": 1, "MaxElections": 1, "MaxCmds": 0, "MaxCrash": 0},
+           "invariants": REPL_INV, "timeout": 900}
+REPL_Q2 = {"name": "replication-2n-crash", "consts": {"Node": "{n1, n2}", "InitVoters": "{n1, n2}", "MaxTerm": 3, "MaxLog": 4, "MaxInflight": 1, "MaxElections": 2, "MaxCmds": 1, "MaxCrash": 1, "Orphans": "TRUE"},
+           "invariants": REPL_INV + ["Inv_C01", "Inv_C05"], "timeout": 900}
+CONF_Q12 = {"name": "reconfig-1to2", "consts": {"Node": "{n1, n2}", "InitVoters": "{n1}", "MaxTerm": 2, "MaxLog": 6, "MaxInflight": 1, "MaxElections": 1, "MaxCmds": 1,
+                                               "MaxCfgReqs": 1, "EdAddPromote": "{n2}", "EdAddNonvoter": "{n2}"},
+            "invariants": CONF_INV, "timeout": 900}
+CONF_Q21 = {"name": "reconfig-2to1", "consts": {"Node": "{n1, n2}", "InitVoters": "{n1, n2}", "MaxTerm": 2, "MaxLog": 6, "MaxInflight": 1, "MaxElections": 1, "MaxCmds": 0,
+                                               "MaxCfgReqs": 1, "EdDemote": "{n1, n2}", "EdRemove": "{n1, n2}", "EdForceRemove": "{n2}"},
+            "invariants": CONF_INV, "timeout": 900}
+# thorough: larger bounds (minutes each)
+ELECT_T = {"name": "election-3n-2e-crash", "consts": {"MaxTerm": 3, "MaxLog": 3, "MaxInflight": 0, "MaxElections": 2, "MaxCrash": 1},
+           "invariants": ["Inv_C01", "Inv_C05", "Inv_C17a", "Inv_C11"], "timeout": 2400, "may_timeout": True}
+REPL_T3 = {"name": "replication-3n-1cmd", "consts": {"MaxTerm": 2, "MaxLog": 3, "MaxInflight": 1, "MaxElections": 1, "MaxCmds": 1, "MaxCrash": 0},
+           "invariants": REPL_INV, "timeout": 2400, "may_timeout": True}
+REPL_T2 = {"name": "replication-2n-2crash", "consts": {"Node": "{n1, n2}", "InitVoters": "{n1, n2}", "MaxTerm": 4, "MaxLog": 5, "MaxInflight": 2, "MaxElections": 3, "MaxCmds": 2, "MaxCrash": 2, "Orphans": "TRUE"},
+           "invariants": REPL_INV + ["Inv_C01", "Inv_C05"], "timeout": 2400, "may_timeout": True}
+CONF_T = {"name": "reconfig-3n-join", "consts": {"InitVoters": "{n1, n2}", "MaxTerm": 2, "MaxLog": 5, "MaxInflight": 1, "MaxElections": 1, "MaxCmds": 0, "MaxCfgReqs": 1, "EdAddPromote": "{n3}"},
+          "invariants": CONF_INV, "timeout": 2400, "may_timeout": True}
 
 SIM_CORE = {"consts": {"MaxTerm": 12, "MaxLog": 12, "MaxCmds": 5, "MaxCrash": 2, "MaxInflight": 2, "MaxElections": 12, "Orphans": "TRUE", "Reduce": "FALSE"},
-            "num": 150, "depth": 60}
-SIM_CORE_T = dict(SIM_CORE, num=3000, depth=80)
+            "num": 120, "depth": 60}
+SIM_CORE_T = dict(SIM_CORE, num=2000, depth=80)
+SIM_CONF = {"consts": {"Node": "{n1, n2, n3, n4}", "InitVoters": "{n1, n2, n3}", "MaxTerm": 10, "MaxLog": 14, "MaxCmds": 3, "MaxCrash": 1, "MaxInflight": 2, "MaxElections": 8,
+                       "Orphans": "TRUE", "Reduce": "FALSE", "MaxCfgReqs": 3, "EdAddPromote": "{n4}", "EdAddNonvoter": "{n4}", "EdDemote": "{n1, n2, n3}",
+                       "EdRemove": "{n1, n2, n3, n4}", "EdForceRemove": "{n3}", "EdPromote": "{n4}", "RoundFastSet": "{TRUE, FALSE}"},
+            "num": 100, "depth": 70}
+SIM_CONF_T = dict(SIM_CONF, num=1500, depth=90)
 
 
-def core_plan(preds, mc_quick, mc_thorough, attacks, level="model_checking"):
-    return {"level": level, "preds": preds,
-            "mc": {"quick": mc_quick, "thorough": mc_thorough},
-            "sim": {"quick": SIM_CORE, "thorough": SIM_CORE_T},
-            "attacks": attacks}
+def plan(preds, mcq, mct, attacks, sim=("core",), level="model_checking", assumptions=()):
+    sims = {"core": (SIM_CORE, SIM_CORE_T), "conf": (SIM_CONF, SIM_CONF_T)}
+    return {"level": level, "preds": preds, "mc": {"quick": mcq, "thorough": mcq + mct},
+            "sims": {"quick": [sims[k][0] for k in sim], "thorough": [sims[k][1] for k in sim]},
+            "attacks": attacks, "assumptions": list(assumptions)}
 
 
 PLANS = {
-    "C01": core_plan(["C01_ElectionSafety"], [ELECT_Q], [ELECT_Q], ["G_OneVote", "G_VoteQuorum", "G_StaleTermVote", "G_StepDownOnTerm", "G_PersistVote", "FixD1"]),
-    "C05": core_plan(["C05_OneVotePerTerm", "C05_TermMonotone", "C05_GrantDurable"], [ELECT_Q], [ELECT_Q], ["G_OneVote", "G_PersistVote", "G_StaleTermVote", "FixD1"]),
-    "C02": core_plan(["C02_CommittedAgree", "C02_LeaderCompleteness", "C02_CommittedStable"], [REPL_Q], [REPL_Q],
-                     ["G_UpToDate", "G_LeaderOwnTerm", "G_FollowerOwnTerm", "G_TruncateOnConflict", "G_ConsistencyCheck"]),
-    "C03": core_plan(["C03_FsmIsCommittedPrefix", "C03_FsmNotAhead"], [REPL_Q], [REPL_Q], ["G_UpToDate", "G_FollowerOwnTerm", "G_ConsistencyCheck"]),
-    "C04": core_plan(["C04_LogMatching", "C04_LeaderAppendOnly"], [REPL_Q], [REPL_Q], ["G_ConsistencyCheck", "G_TruncateOnConflict"]),
-    "C06": core_plan(["C06_MajorityDurable"], [REPL_Q], [REPL_Q], ["G_FlushBeforeAck", "G_LeaderFlush"]),
-    "C19": core_plan(["C19_Ordered", "C19_LatestIsNewest", "C19_Monotone"], [REPL_Q], [REPL_Q], ["G_ConsistencyCheck", "G_FollowerOwnTerm"]),
+    "C01": plan(["C01_ElectionSafety"], [ELECT_Q, ELECT_2N], [ELECT_T],
+                ["G_OneVote", "G_VoteQuorum", "G_StaleTermVote", "G_StepDownOnTerm", "G_PersistVote", "FixD1", "G_StaleTermAppend"], sim=("core", "conf")),
+    "C05": plan(["C05_OneVotePerTerm", "C05_TermMonotone", "C05_GrantDurable"], [ELECT_Q, ELECT_2N], [ELECT_T],
+                ["G_OneVote", "G_PersistVote", "G_StaleTermVote", "FixD1", "G_StepDownOnTerm"]),
+    "C02": plan(["C02_CommittedAgree", "C02_LeaderCompleteness", "C02_CommittedStable"], [REPL_Q3, REPL_Q2], [REPL_T3, REPL_T2],
+                ["G_UpToDate", "G_LeaderOwnTerm", "G_FollowerOwnTerm", "G_TruncateOnConflict", "G_ConsistencyCheck", "G_MajorityOfVoters"], sim=("core", "conf")),
+    "C03": plan(["C03_FsmIsCommittedPrefix", "C03_FsmNotAhead"], [REPL_Q3, REPL_Q2], [REPL_T3, REPL_T2], ["G_UpToDate", "G_FollowerOwnTerm", "G_ConsistencyCheck"]),
+    "C04": plan(["C04_LogMatching", "C04_LeaderAppendOnly"], [REPL_Q3, REPL_Q2], [REPL_T3, REPL_T2], ["G_ConsistencyCheck", "G_TruncateOnConflict", "G_StaleTermAppend"]),
+    "C06": plan(["C06_MajorityDurable"], [REPL_Q2, CONF_Q12, CONF_Q21], [REPL_T2, CONF_T], ["G_FlushBeforeAck", "G_LeaderFlush", "G_MajorityOfVoters", "FixD2"], sim=("core", "conf")),
+    "C08": plan(["C08_OneVoterDelta", "C08_ConfigOnlyWhenSafe"], [CONF_Q12, CONF_Q21], [CONF_T], ["G_ConfigCommittedFirst", "G_OwnTermBeforeConfig"], sim=("conf",)),
+    "C11": plan(["C11_OnlyVotersCampaign", "C11_OnlyVotersLead", "C11_PromoteAfterRound", "C11_StopOnlyWhenRemoved", "C11_DemotedLeaderStepsDown"],
+                [CONF_Q12, CONF_Q21], [CONF_T], ["G_NonVoterNoElection", "G_PromoteAfterRound", "G_StepDownWhenDemoted", "G_MajorityOfVoters"], sim=("conf",)),
+    "C19": plan(["C19_Ordered", "C19_LatestIsNewest", "C19_Monotone"], [REPL_Q3, REPL_Q2], [REPL_T3, REPL_T2], ["G_ConsistencyCheck", "G_FollowerOwnTerm"], sim=("core", "conf")),
 }
 
 
